@@ -4,6 +4,7 @@ Codec half: every report the relay can emit is JSON the published status client 
 decodes into the same values.  (The membership half — the listing equals the set of joined
 connections — is a separate part of this check file.)
 """
+from relaymain import RelayMainMode, RELAYMAIN_RULE
 import math, re
 import vlib
 from vlib import hx, unhx
@@ -63,6 +64,7 @@ NEVER_NS = 999 * 3600 * 10 ** 9
 
 
 # ----------------------------------------------------------------------------- helpers (independent of the Lean model)
+
 
 def go_runes(b):
     """Go's reading of bytes as text: each byte that does not start a valid UTF-8 sequence -> U+FFFD"""
@@ -623,7 +625,7 @@ MEMBER_RULE = (" | membership half: relay mode (see C01) — after every history
                "the joined connections plus the stats feeder, each with its topic, read/write capability, scopes, expiry, user agent and "
                "forwarded address (compared with the python reference and with the Lean model's report).")
 
-RULE = CODEC_RULE + MEMBER_RULE
+RULE = CODEC_RULE + MEMBER_RULE + RELAYMAIN_RULE
 ASSUMPTIONS = CODEC_ASSUMPTIONS + ["'within one reporting interval' for the stats topic is not exhibited (the stats feeder's 1 s rate limit and statsEvery timer are real-time); the REST report is computed synchronously from the membership table",
                                    "GET /status uses snake_case member names by its API specification; the published pkg/status client reads the stats-topic (camelCase) format only — decoding the REST body with it keeps only the shared names (proved as rest_decoded_by_status_client; not an alarm)"]
 THEOREMS = CODEC_THEOREMS + MEMBER_THEOREMS
@@ -652,4 +654,4 @@ class LagMode(vlib.Mode):
 
 
 def modes(tier):
-    return codec_modes(tier) + [RelayMode("C14"), LagMode()]
+    return codec_modes(tier) + [RelayMode("C14"), LagMode(), RelayMainMode("C14", 2)]
